@@ -236,7 +236,9 @@ func BigPopulation(t *testing.T) *Population {
 		}
 		// Account names may contain the path separator: these live beside "Big/V000" and "Big/V001".
 		w.Accounts = append(w.Accounts, "V000/1", "V001/a/b", "V000/2")
-		bigPop = NewPopulation(t, "big", []WalletSpec{w})
+		// ... and, last, a share of a threshold key in a distributed wallet (index len-1; batch generators that pick distinct
+		// keys from the front never reach it, runners that want it take it from the end)
+		bigPop = NewPopulation(t, "big", []WalletSpec{w, {Name: "BigShared", Kind: "distributed", Accounts: []string{"Shared validator"}}})
 		bigPop.Shared = true
 	})
 	return bigPop
